@@ -67,7 +67,11 @@ func (f *ofn) fieldsOf(e ast.Expr) (ast.Expr, []string, bool) {
 			if !f.og.hasField(nt, fl.Name()) {
 				f.fail(e, "field %s.%s of type %s is outside the language", nt.Obj().Name(), fl.Name(), fl.Type())
 			}
-			path = append(path, leanField(fl.Name()))
+			if _, sh := f.og.shared[nt.Obj().Pkg().Path()+"."+nt.Obj().Name()]; sh {
+				path = append(path, leanField(fl.Name()))
+			} else {
+				path = append(path, f.og.fieldName(nt, fl.Name()))
+			}
 			t = fl.Type()
 		}
 		return root, path, true
@@ -200,6 +204,7 @@ func (f *ofn) expr(e ast.Expr) oval {
 			if !ok {
 				f.fail(e, "field of type %s", f.info.TypeOf(x))
 			}
+			f.checkResponseSlice(x, root)
 			return oval{s: f.nameOf(root) + "." + strings.Join(path, "."), t: t}
 		}
 		if f.info.Selections[x] == nil { // pkg.Var
@@ -247,6 +252,9 @@ func (f *ofn) expr(e ast.Expr) oval {
 		v := f.expr(x.X)
 		if v.t.k == oOpt {
 			return f.deref(e, v)
+		}
+		if v.t.k == oStruct {
+			return v // `*p` for a pointer to a structure (taken to be non-nil): the structure's value, copied
 		}
 		f.fail(e, "dereference of a value of unsupported kind")
 	case *ast.TypeAssertExpr:
@@ -388,6 +396,9 @@ func (f *ofn) arith(n ast.Node, op token.Token, a, b oval) oval {
 }
 
 func (f *ofn) callExpr(c *ast.CallExpr) oval {
+	if v, ok := f.keysExpr(c); ok {
+		return v
+	}
 	// conversions
 	if tv, ok := f.info.Types[c.Fun]; ok && tv.IsType() {
 		to, ok := f.og.typeOf(tv.Type)
@@ -531,6 +542,9 @@ func (f *ofn) compositeLit(x *ast.CompositeLit) oval {
 		if isBytesBuffer(gt) && len(x.Elts) == 0 {
 			return oval{s: "([] : Bytes)", t: t}
 		}
+		if at, ok := gt.Underlying().(*types.Array); ok && len(x.Elts) == 0 {
+			return oval{s: fmt.Sprintf("(List.replicate %d (0 : UInt8))", at.Len()), t: t} // `[N]byte{}`
+		}
 	case oStruct:
 		st := t.named.Underlying().(*types.Struct)
 		var fs []string
@@ -547,11 +561,18 @@ func (f *ofn) compositeLit(x *ast.CompositeLit) oval {
 			} else {
 				fl = st.Field(i)
 			}
+			if fl != nil && f.hsLiteralField(x, t.named, fl, val, &fs) {
+				continue
+			}
 			if fl == nil || !f.og.hasField(t.named, fl.Name()) {
 				f.fail(el, "struct literal sets a field outside the language")
 			}
-			ft, _ := f.og.typeOf(fl.Type())
-			fs = append(fs, fmt.Sprintf("%s := %s", leanField(fl.Name()), f.exprT(val, ft).s))
+			ft, _ := f.og.fieldOType(t.named, fl)
+			fname := leanField(fl.Name())
+			if !t.sh {
+				fname = f.og.fieldName(t.named, fl.Name())
+			}
+			fs = append(fs, fmt.Sprintf("%s := %s", fname, f.exprT(val, ft).s))
 		}
 		if len(fs) == 0 {
 			return oval{s: t.zero(), t: t}
